@@ -1107,3 +1107,56 @@ package bpmn
 //@     invariant evt.wiring != nil && evt.wiring == old(evt.wiring) && evt.satisfier == old(evt.satisfier) && evt.mch == old(evt.mch)
 //@     invariant cesShape(evt.satisfier) && cesDistinct(evt.satisfier) && cesNoneFull(evt.satisfier) && cesCommonBit(evt.satisfier)
 //@     invariant count(Send, flowAction) == athead(1, count(Send, flowAction)) + rk2 && evt.activated && evt.awaitingActions == athead(1, evt.awaitingActions)
+
+// ---------------------------------------------------------------------------------------------------------------
+// gateway_event_based.go (C06)
+
+// The termination channels of one activation: one per outgoing flow, pairwise different, open.
+//@ spec func ebgChannels(tc map[schema.IdRef]chan bool) bool =
+//@   (forall k schema.IdRef :: has(tc, k) ==> tc[k] != nil && !closed(tc[k])) &&
+//@   (forall k schema.IdRef, l schema.IdRef :: has(tc, k) && has(tc, l) && k != l ==> tc[k] != tc[l])
+
+// One activation: a fresh set of termination channels, one action carrying every outgoing flow, the terminate lookup
+// and the shared transformer below.
+//@ func (*eventBasedGateway).run
+//@   prop C06 C07
+//@   requires gw.wiring != nil
+//@   loop 1 for
+//@     invariant gw.wiring != nil && gw.wiring == old(gw.wiring) && gw.mch == old(gw.mch)
+//@     iter ensures [an-activation-answers-once-with-all-outgoing-flows]
+//@       isRecv(ev(old(evlen))) && evch(ev(old(evlen))) == gw.mch && is(evval(ev(old(evlen))), nextActionMessage) ==>
+//@         isSend(ev(evlen - 1)) && evch(ev(evlen - 1)) == evval(ev(old(evlen))).(nextActionMessage).response &&
+//@         is(evval(ev(evlen - 1)), flowAction) && len(evval(ev(evlen - 1)).(flowAction).sequenceFlows) == len(gw.wiring.outgoing) &&
+//@         fncode(evval(ev(evlen - 1)).(flowAction).actionTransformer) == code("(*eventBasedGateway).run$2") &&
+//@         fncode(evval(ev(evlen - 1)).(flowAction).terminate) == code("(*eventBasedGateway).run$1")
+//@   loop 2 range sequences
+//@     invariant gw.wiring != nil && gw.wiring == old(gw.wiring) && gw.mch == old(gw.mch) && first == 0
+//@     invariant terminationChannels != nil && fresh(terminationChannels)
+//@     invariant forall k schema.IdRef :: has(terminationChannels, k) ==> fresh(terminationChannels[k]) && terminationChannels[k] != nil && terminationChannels[k] <= alloc
+//@     invariant forall k schema.IdRef :: has(terminationChannels, k) ==> !closed(terminationChannels[k])
+//@     invariant forall k schema.IdRef, l schema.IdRef :: has(terminationChannels, k) && has(terminationChannels, l) && k != l ==> terminationChannels[k] != terminationChannels[l]
+
+// The action transformer shared by the alternatives of one activation: the first alternative whose catch event fires
+// gets its action through (one atomic compare-and-swap decides), announces the determination once, withdraws every
+// other alternative (a `true` on its termination channel, then close) and closes its own channel without a message;
+// every later caller gets completeAction (its token ends) and touches nothing.
+//@ func (*eventBasedGateway).run$2
+//@   prop C06
+//@   closureinv terminationChannels != nil && ebgChannels(terminationChannels)
+//@   ensures [the-first-caller-wins] old(first) == 0 ==> result == action && first == 1
+//@   ensures [winner-announces-once] old(first) == 0 ==> count(Trace, DeterminationMadeTrace) == old(count(Trace, DeterminationMadeTrace)) + 1
+//@   ensures [every-later-caller-is-turned-away] old(first) != 0 ==> is(result, completeAction) && evlen == old(evlen) && first == old(first)
+//@   ensures [the-winner-is-never-told-to-terminate] sequenceFlowId != nil && has(old(terminationChannels), *sequenceFlowId) ==>
+//@             countOn(Send, old(terminationChannels)[*sequenceFlowId]) == old(countOn(Send, terminationChannels[*sequenceFlowId]))
+//@   ensures [every-loser-is-told-exactly-once] old(first) == 0 && sequenceFlowId != nil ==>
+//@             forall k schema.IdRef :: has(old(terminationChannels), k) && k != *sequenceFlowId ==>
+//@               countOn(Send, old(terminationChannels)[k]) == old(countOn(Send, terminationChannels[k])) + 1 && closed(old(terminationChannels)[k])
+//@   loop 1 range terminationChannels
+//@     invariant first == 1 && count(Trace, DeterminationMadeTrace) == old(count(Trace, DeterminationMadeTrace)) + 1 && terminationChannels == old(terminationChannels)
+//@     invariant forall k schema.IdRef :: has(terminationChannels, k) ==> terminationChannels[k] != nil &&
+//@                 (visited(1, k) ==> closed(terminationChannels[k])) && (!visited(1, k) ==> !closed(terminationChannels[k]))
+//@     invariant forall k schema.IdRef, l schema.IdRef :: has(terminationChannels, k) && has(terminationChannels, l) && k != l ==> terminationChannels[k] != terminationChannels[l]
+//@     invariant sequenceFlowId != nil && has(terminationChannels, *sequenceFlowId) ==>
+//@                 countOn(Send, terminationChannels[*sequenceFlowId]) == old(countOn(Send, terminationChannels[*sequenceFlowId]))
+//@     invariant sequenceFlowId != nil ==> forall k schema.IdRef :: has(terminationChannels, k) && k != *sequenceFlowId ==>
+//@                 countOn(Send, terminationChannels[k]) == old(countOn(Send, terminationChannels[k])) + (visited(1, k) ? 1 : 0)
